@@ -1241,13 +1241,45 @@ impl Driver {
                 struct C<'g> {
                     gens: &'g BTreeSet<String>,
                     fns: &'g Vec<FnInfo>,
+                    st: Option<&'g str>,
                     found: Vec<String>,
                 }
                 impl<'ast, 'g> syn::visit::Visit<'ast> for C<'g> {
                     fn visit_expr_call(&mut self, c: &'ast ExprCall) {
                         if let Expr::Path(p) = &*c.func {
+                            // `path::Trait::<A, ..>::f(..)` with a configured `impl<X..> Trait<X..> for Self`: the callee's `X::ITEM` is `A::ITEM` here
+                            if p.path.segments.len() >= 2 && self.st.is_some() {
+                                let tseg = &p.path.segments[p.path.segments.len() - 2];
+                                let fname = p.path.segments.last().unwrap().ident.to_string();
+                                let tname = tseg.ident.to_string();
+                                let targs: Vec<String> = match &tseg.arguments {
+                                    PathArguments::AngleBracketed(a) => a.args.iter().filter_map(|g| if let GenericArgument::Type(Type::Path(tp)) = g { tp.path.get_ident().map(|i| i.to_string()) } else { None }).collect(),
+                                    _ => vec![],
+                                };
+                                for f in self.fns.iter().filter(|f| f.name == fname && f.self_ty.as_deref() == self.st && f.trait_name.as_deref().map_or(false, |t| t.starts_with(&format!("{}<", tname)))) {
+                                    let tn = f.trait_name.clone().unwrap();
+                                    let cargs: Vec<String> = tn[tname.len() + 1..tn.len() - 1].split(',').map(|x| x.trim().to_string()).collect();
+                                    if cargs.len() != targs.len() {
+                                        continue;
+                                    }
+                                    for (k, _) in f.assoc_params.iter() {
+                                        let mut parts: Vec<&str> = k.split("::").collect();
+                                        if let Some(gi) = cargs.iter().position(|g| g == parts[0]) {
+                                            if self.gens.contains(&targs[gi]) {
+                                                parts[0] = &targs[gi];
+                                                let nk = parts.join("::");
+                                                if !self.found.contains(&nk) {
+                                                    self.found.push(nk);
+                                                }
+                                            }
+                                        }
+                                    }
+                                }
+                            }
                             let seg = p.path.segments.last().unwrap();
-                            if let PathArguments::AngleBracketed(a) = &seg.arguments {
+                            // (`G::f::<A>(..)` on a generic parameter G is an `assoc` item, not a configured function)
+                            let on_generic = p.path.segments.len() >= 2 && self.gens.contains(&p.path.segments[0].ident.to_string());
+                            if let (PathArguments::AngleBracketed(a), false) = (&seg.arguments, on_generic) {
                                 let targs: Vec<String> = a.args.iter().filter_map(|g| if let GenericArgument::Type(Type::Path(tp)) = g { tp.path.get_ident().map(|i| i.to_string()) } else { None }).collect();
                                 for f in self.fns.iter().filter(|f| f.name == seg.ident.to_string() && !f.assoc_params.is_empty() && f.generic_names.len() == targs.len()) {
                                     for (k, _) in f.assoc_params.iter() {
@@ -1311,7 +1343,7 @@ impl Driver {
                         }
                     }
                 }
-                let mut c = C { gens: &gens, fns: &self.tables.fns, found: vec![] };
+                let mut c = C { gens: &gens, fns: &self.tables.fns, st, found: vec![] };
                 syn::visit::Visit::visit_block(&mut c, ff.block);
                 for k in c.found {
                     if !v.found.contains(&k) {
@@ -1459,7 +1491,7 @@ impl Driver {
         let (ty, ex, l1, l2) = found[0];
         let mvars = self.mvars_of(quote::ToTokens::to_token_stream(ex), None, file);
         let ty = self.conv(ty, &BTreeSet::new(), st.as_deref(), None)?;
-        let mut tr = Tr { t: &self.tables, self_ty: st.clone(), ret_ty: ty.clone(), mut_self: false, counter: BTreeMap::new(), mut_methods: BTreeSet::new(), generic_tys: BTreeSet::new(), subst: BTreeMap::new(), fuel: false, partial: false, needs_partial: false, panic_sites: BTreeSet::new(), slice_names: std::cell::RefCell::new(BTreeSet::new()), needs_fuel: false, unwrap_retry: false, fuel_var: String::new(), fuel_names: BTreeSet::new(), mutarg_names: BTreeSet::new(), mut_params: vec![], ret_coq: String::new(), loops: vec![], gen: None, fn_assigned: BTreeSet::new(), cur_file: file.to_string(), fn_coq: String::new(), loop_counter: 0, aux_defs: vec![], turbofish_types: None, inst_traits: BTreeMap::new(), self_coq: String::new(), mut_param_coq: vec![] };
+        let mut tr = Tr { t: &self.tables, self_ty: st.clone(), ret_ty: ty.clone(), mut_self: false, counter: BTreeMap::new(), mut_methods: BTreeSet::new(), generic_tys: BTreeSet::new(), subst: BTreeMap::new(), fuel: false, partial: false, needs_partial: false, assoc_override: std::cell::RefCell::new(None), panic_sites: BTreeSet::new(), slice_names: std::cell::RefCell::new(BTreeSet::new()), needs_fuel: false, unwrap_retry: false, fuel_var: String::new(), fuel_names: BTreeSet::new(), mutarg_names: BTreeSet::new(), mut_params: vec![], ret_coq: String::new(), loops: vec![], gen: None, fn_assigned: BTreeSet::new(), cur_file: file.to_string(), fn_coq: String::new(), loop_counter: 0, aux_defs: vec![], turbofish_types: None, inst_traits: BTreeMap::new(), self_coq: String::new(), mut_param_coq: vec![] };
         let mut cenv = Env::default();
         let cbinders = self.mvar_binders(&mvars, &mut tr, &mut cenv)?;
         let v = tr.pure(ex, &cenv, Some(&ty)).map_err(|e| format!("{} const `{}`: {}", file, spec, e))?;
@@ -1556,6 +1588,7 @@ impl Driver {
             fuel,
             partial: mode >= 1,
             needs_partial: false,
+            assoc_override: std::cell::RefCell::new(None),
             panic_sites: BTreeSet::new(),
             slice_names: std::cell::RefCell::new(BTreeSet::new()),
             needs_fuel: false,
